@@ -118,6 +118,83 @@ func (nullHealth) Register(string, time.Duration) {}
 func (nullHealth) Unregister(string)              {}
 func (nullHealth) Ready(string, bool)             {}
 
+// ---------------------------------------------------------------------------- metrics with a hook
+
+// hookMetrics is the Metrics the collector gets: metrics.NullMetrics, except that
+//   - when armed, the first Histogram("trace_kept_sample_rate") — send() calls it right before the
+//     hand-over `i.tracesToSend <- trace` — parks the calling worker until released;
+//   - Histogram("collector_send_expired_traces_in_cache_dur_ms") is called by a deferred function of
+//     sendExpiredTracesInCache; when it runs because the pass is panicking (runtime.gopanic on the
+//     stack) the panic is recorded and the goroutine is kept there for ever, so that a panic in a
+//     goroutine the harness does not own is an observation instead of the end of the process.
+type hookMetrics struct {
+	*metrics.NullMetrics
+	mu       sync.Mutex
+	armed    bool
+	reached  chan struct{}
+	release  chan struct{}
+	panicked string
+}
+
+func (h *hookMetrics) arm() {
+	h.mu.Lock()
+	h.armed, h.reached, h.release = true, make(chan struct{}), make(chan struct{})
+	h.mu.Unlock()
+}
+
+func (h *hookMetrics) disarm() { h.mu.Lock(); h.armed = false; h.mu.Unlock() }
+
+func (h *hookMetrics) panicKind() string { h.mu.Lock(); defer h.mu.Unlock(); return h.panicked }
+
+func panicking() string {
+	var pcs [40]uintptr
+	n := runtime.Callers(2, pcs[:])
+	frames := runtime.CallersFrames(pcs[:n])
+	pan, send := false, false
+	for {
+		f, more := frames.Next()
+		switch f.Function {
+		case "runtime.gopanic":
+			pan = true
+		case "runtime.chansend", "runtime.chansend1":
+			send = true
+		}
+		if !more {
+			break
+		}
+	}
+	if !pan {
+		return ""
+	}
+	if send {
+		return "chansend"
+	}
+	return "other"
+}
+
+func (h *hookMetrics) Histogram(name string, v float64) {
+	switch name {
+	case "trace_kept_sample_rate":
+		h.mu.Lock()
+		if !h.armed {
+			h.mu.Unlock()
+			return
+		}
+		h.armed = false
+		reached, release := h.reached, h.release
+		h.mu.Unlock()
+		close(reached)
+		<-release
+	case "collector_send_expired_traces_in_cache_dur_ms":
+		if k := panicking(); k != "" {
+			h.mu.Lock()
+			h.panicked = k
+			h.mu.Unlock()
+			select {}
+		}
+	}
+}
+
 // ---------------------------------------------------------------------------- fake Honeycomb
 
 type upstream struct {
@@ -490,7 +567,7 @@ func (c *comp) Gen(r *kit.Rng, maxLen int, tier string) kit.Case {
 		}
 		return o
 	}
-	switch tr.Pick(66, 9, 7, 5, 6, 7) {
+	switch tr.Pick(52, 9, 7, 5, 6, 5, 16) {
 	case 0:
 		ops = append(ops, "stop", "txstop", "gor")
 	case 1: // data arriving after the stops
@@ -505,6 +582,11 @@ func (c *comp) Gen(r *kit.Rng, maxLen int, tier string) kit.Case {
 		ops = append(ops, "stop", "tick 100000000", "fwd", "txtick 100000000", "txstop", "gor")
 	case 5:
 		ops = append(ops, "agent", "stop", "txstop", "gor")
+	case 6: // Stop lands inside a decision pass (after 0-4 more ticks, so that something is due)
+		for j := tr.Intn(5); j > 0; j-- {
+			ops = append(ops, "tick 100000000")
+		}
+		ops = append(ops, "tickstop 100000000", "txstop", "gor")
 	}
 	return kit.Case{Header: c.hdr, Ops: ops}
 }
@@ -536,6 +618,7 @@ type runner struct {
 	baseline   map[string]bool
 	wdone      chan struct{}
 	agents     []*agent.VerifShutdownAgent
+	hook       *hookMetrics
 	ptx        *transmit.MockTransmission
 	auxStopped bool
 }
@@ -607,6 +690,7 @@ func (c *comp) NewCase(h []string) kit.Runner {
 	ptx.Start()
 	r.ptx = ptx
 	nm := &metrics.NullMetrics{}
+	r.hook = &hookMetrics{NullMetrics: nm}
 	r.sf = &sample.SamplerFactory{Config: r.conf, Metrics: nm, Logger: &logger.NullLogger{}}
 	if err := r.sf.Start(); err != nil {
 		panic(err)
@@ -622,7 +706,7 @@ func (c *comp) NewCase(h []string) kit.Runner {
 		Transmission:     r.tx,
 		PeerTransmission: ptx,
 		PubSub:           r.ps,
-		Metrics:          nm,
+		Metrics:          r.hook,
 		StressRelief:     &collect.MockStressReliever{},
 		SamplerFactory:   r.sf,
 		Peers:            peer.NewMockPeers([]string{"api1"}, "api1"),
@@ -833,22 +917,26 @@ func (r *runner) Do(op []string) (string, bool) {
 			r.coll.Stop() // panics: close of closed channel (reported by the kit)
 			return "returned", true
 		}
-		early := r.stopCollector()
-		var left []int
-		q := 0
-		for w := 0; w < r.workers; w++ {
-			for id := range r.buffered(w) {
-				left = append(left, tnum(id))
-			}
-			a, b := collect.VerifShutdownQueueLens(r.coll, w)
-			q += a + b
+		early, _, _ := r.stopCollector(false)
+		return r.afterStop("", early, "") + r.tail(), true
+	case "tickstop":
+		if time.Duration(arg(1)) != r.p {
+			return "bad-op", true
 		}
-		sort.Ints(left)
-		ls := make([]string, len(left))
-		for i, t := range left {
-			ls[i] = strconv.Itoa(t)
+		r.clock.Advance(r.p)
+		if r.stopped {
+			return "refused" + r.tail(), true
 		}
-		return fmt.Sprintf("left=%s q=%d early=%d", list(ls), q, early) + r.tail(), true
+		early, decs, pan := r.stopCollector(true)
+		sort.Ints(decs)
+		ds := make([]string, len(decs))
+		for i, t := range decs {
+			ds[i] = strconv.Itoa(t)
+		}
+		if pan == "" {
+			pan = "-"
+		}
+		return r.afterStop("dec="+list(ds)+" ", early, " panic="+pan) + r.tail(), true
 	case "txstop":
 		fl := r.stopTx()
 		pend := transmit.VerifShutdownPending(r.dt)
@@ -876,11 +964,44 @@ func list(l []string) string {
 	return strings.Join(l, ",")
 }
 
-// stopCollector runs the exported Stop.  Returns 1 if Stop returned while the sendTraces goroutine
-// was still held back with traces to forward.
-func (r *runner) stopCollector() int {
+// afterStop describes what is left in the workers once Stop is over.
+func (r *runner) afterStop(pre string, early int, post string) string {
+	var left []int
+	q := 0
+	for w := 0; w < r.workers; w++ {
+		for id := range r.buffered(w) {
+			left = append(left, tnum(id))
+		}
+		a, b := collect.VerifShutdownQueueLens(r.coll, w)
+		q += a + b
+	}
+	sort.Ints(left)
+	ls := make([]string, len(left))
+	for i, t := range left {
+		ls[i] = strconv.Itoa(t)
+	}
+	return fmt.Sprintf("%sleft=%s q=%d early=%d%s", pre, list(ls), q, early, post)
+}
+
+func (r *runner) sendTracesAlive() bool {
+	for _, g := range goroutines() {
+		if !r.baseline[g.id] && strings.Contains(g.text, "(*InMemCollector).sendTraces(") {
+			return true
+		}
+	}
+	return false
+}
+
+// stopCollector runs the exported Stop.  early = 1: Stop returned while the sendTraces goroutine
+// was still held back with traces to forward.  With mid (the clock has just been advanced by one
+// ticker period) the workers first tick one after the other and the first one that reaches the
+// hand-over of a kept trace is parked right before `i.tracesToSend <- trace`; Stop is started, and
+// the worker is released once Stop has closed the input channels (and, should Stop close
+// tracesToSend without waiting for the workers, once the sendTraces goroutine has gone or 5 ms have
+// passed).  decs = traces decided in that tick, pan = the kind of panic a worker ran into.
+func (r *runner) stopCollector(mid bool) (early int, decs []int, pan string) {
 	anyHeld := len(r.held) > 0
-	stall := r.pendingT > 0 || anyHeld
+	stall := r.pendingT > 0 || anyHeld || mid
 	var st chan struct{}
 	if stall {
 		st = make(chan struct{})
@@ -889,11 +1010,40 @@ func (r *runner) stopCollector() int {
 		r.tx.mu.Unlock()
 	}
 	r.pendingT = r.gate.Restore()
+	wstar := -1
+	var beforeStar map[string]int
+	if mid {
+		now := r.clock.Now()
+		r.hook.arm()
+		for w := 0; w < r.workers; w++ {
+			if r.held[w] {
+				continue
+			}
+			before := r.buffered(w)
+			r.unpark(w)
+			waitFor("worker tick", func() bool { return collect.VerifShutdownTicked(r.coll, w, now) })
+			ch, ok := collect.VerifShutdownParkOr(r.coll, w, r.hook.reached)
+			if !ok {
+				wstar, beforeStar = w, before
+				break
+			}
+			r.rel[w] = ch
+			after := r.buffered(w)
+			for id := range before {
+				if _, still := after[id]; !still {
+					decs = append(decs, tnum(id))
+				}
+			}
+		}
+		if wstar < 0 {
+			r.hook.disarm()
+		}
+	}
 	done := make(chan struct{})
-	var pan any
+	var pn any
 	go func() {
 		defer close(done)
-		defer func() { pan = recover() }()
+		defer func() { pn = recover() }()
 		r.coll.Stop()
 	}()
 	// Stop closes the workers' channels in index order; the last worker is never held, its queues are empty
@@ -905,6 +1055,13 @@ func (r *runner) stopCollector() int {
 		}
 		return collect.VerifShutdownClosed(r.coll, r.workers-1)
 	})
+	if wstar >= 0 {
+		deadline := time.Now().Add(5 * time.Millisecond)
+		for r.sendTracesAlive() && time.Now().Before(deadline) {
+			time.Sleep(200 * time.Microsecond)
+		}
+		close(r.hook.release)
+	}
 	for w := 0; w < r.workers; w++ {
 		if r.rel[w] != nil {
 			r.unpark(w)
@@ -912,14 +1069,24 @@ func (r *runner) stopCollector() int {
 	}
 	// workersWG.Wait() has returned when Stop stops worker 0's decision cache (hook); should the
 	// code under test not do that any more, go on after a while
-	select {
-	case <-r.wdone:
-	case <-done:
-	case <-time.After(100 * time.Millisecond):
+	wait := time.After(100 * time.Millisecond)
+waitWorkers:
+	for {
+		select {
+		case <-r.wdone:
+			break waitWorkers
+		case <-done:
+			break waitWorkers
+		case <-wait:
+			break waitWorkers
+		case <-time.After(200 * time.Microsecond):
+			if r.hook.panicKind() != "" {
+				break waitWorkers
+			}
+		}
 	}
-	early := 0
 	if stall {
-		if r.pendingT > 0 {
+		if r.pendingT > 0 && r.hook.panicKind() == "" {
 			select {
 			case <-done:
 				early = 1
@@ -931,18 +1098,38 @@ func (r *runner) stopCollector() int {
 		r.tx.mu.Unlock()
 		close(st)
 	}
-	select {
-	case <-done:
-	case <-time.After(stuck):
-		panic("stuck waiting for Stop to return")
+	deadline := time.Now().Add(stuck)
+waitStop:
+	for {
+		select {
+		case <-done:
+			break waitStop
+		case <-time.After(500 * time.Microsecond):
+			if pan = r.hook.panicKind(); pan != "" {
+				// a worker is panicking (and is kept from taking the process down): Stop will never return
+				time.Sleep(2 * time.Millisecond) // let the sendTraces goroutine finish what it was given
+				break waitStop
+			}
+			if time.Now().After(deadline) {
+				panic("stuck waiting for Stop to return")
+			}
+		}
+	}
+	if wstar >= 0 {
+		after := r.buffered(wstar)
+		for id := range beforeStar {
+			if _, still := after[id]; !still {
+				decs = append(decs, tnum(id))
+			}
+		}
 	}
 	r.stopped = true
 	r.held = map[int]bool{}
 	r.pendingT = 0
-	if pan != nil {
-		panic(pan)
+	if pn != nil {
+		panic(pn)
 	}
-	return early
+	return early, decs, pan
 }
 
 // stopTx runs the exported DirectTransmission.Stop and returns how many accepted events had not
@@ -1329,7 +1516,7 @@ func agentAfterStop(old map[string]bool, where func() string) (hcState, usageSta
 func (r *runner) Close() {
 	defer func() { recover() }()
 	if !r.stopped {
-		r.stopCollector()
+		r.stopCollector(false)
 	}
 	if !r.tx.stopped {
 		r.stopTx()
